@@ -46,7 +46,12 @@ RULE = ("model-compared histories (612 quick / 12 012 thorough): 1-3 owners x 1-
         "owner collection, throw-away writer Computeds (cycle clause; 40 % of them read the rejected Computed again); first the "
         "hand-written corner histories (chain+restore, branch flip and back, nested comparison, write-other-then-self, None upstream, "
         "rejected installation read again, collected parent) and extreme shapes (chain of 14, a Computable without reads, one "
-        "reading 9 observables of 3 owners).  Oracle-only histories (200 quick / 4 000 thorough, not representable over Z): "
+        "reading 9 observables of 3 owners).  SCALE stream (10 cases in every quick run, 21 in thorough / on a break; beyond 64 "
+        "Computables, 130 observables or 400 ops implementation + oracle only): star - ONE observable read by 40 / 257 / 300 (255, 256, "
+        "513, 1025) Computables on owners of their own; fan-in - one Computable reading 40 / 300 (256, 257, 1025) observables of one "
+        "owner, the same observable 300 times, one observable of each of 260 (257, 1025) owners; chains 40 / 90 (129) deep read "
+        "top-down and 250 (280) deep read bottom-up (below what HEAD manages under Python's recursion limit); 700 (3000) write/read "
+        "rounds on a small graph.  Oracle-only histories (200 quick / 4 000 thorough, not representable over Z): "
         "observable values bool / float (non-dyadic, -0.0) / int > 2^53 and < -2^63 / None / str / tuple / Fraction / Decimal, "
         "functions that build tuples, test truthiness and raise a user exception (`req`), owners whose truth value is False "
         "(__len__ 0 / __bool__ False).  Targeted enumerator (thorough / on a break): all op sequences of length <= 4 (5) over "
@@ -243,6 +248,88 @@ def _het_case(rng):
             "layout": rng.choice(["own", "shared", "deep"])}
 
 
+# --- SCALE stream: dependency graphs whose sizes cross 255/256/257, 512, 1024 ... (subscriber lists, parents dicts,
+# PROCESSING_SIGNALS, recursion): big on the implementation side; beyond 64 Computables implementation + oracle only
+def _bsum(terms):
+    """balanced sum, so that neither the closures nor the printers recurse deeply"""
+    while len(terms) > 1:
+        terms = [["+", terms[i], terms[i + 1]] if i + 1 < len(terms) else terms[i] for i in range(0, len(terms), 2)]
+    return terms[0]
+
+
+def _scale_star(n, layout="shared"):
+    """ONE observable (owner 0) read by n Computables, each on an owner of its own"""
+    init = [[1]] + [[i % 3] for i in range(n)]
+    comps = [{"owner": i + 1, "expr": ["+", ["o", 0, 0], ["o", i + 1, 0]], "none0": i % 7 == 0} for i in range(n)]
+    allr = [["read", j] for j in range(n)]
+    ops = allr + [["set", 0, 0, 5]] + allr + [["set", 0, 0, 5]] + allr + [["set", 1, 0, 9], ["set", n, 0, 9], ["set", 0, 0, -2]] + allr
+    return {"scale": True, "init": init, "comps": comps, "ops": ops, "layout": layout}
+
+
+def _scale_fan_one_owner(m):
+    """one Computable reading m observables of ONE owner (and one reading the same observable m times)"""
+    init = [[(i * 7) % 5 for i in range(m)]]
+    comps = [{"owner": 0, "expr": _bsum([["o", 0, i] for i in range(m)])},
+             {"owner": 0, "expr": _bsum([["o", 0, 0] for _ in range(m)])},
+             {"owner": 0, "expr": ["+", ["k", 0], ["k", 1]]}]
+    ops = [["read", 2], ["set", 0, m - 1, 100], ["read", 2], ["set", 0, 0, 1000], ["read", 1], ["read", 2], ["set", 0, 0, 1000],
+           ["read", 2], ["set", 0, m // 2, 7], ["set", 0, m // 2, (m // 2 * 7) % 5], ["read", 0], ["read", 2]]
+    return {"scale": True, "init": init, "comps": comps, "ops": ops, "layout": "own"}
+
+
+def _scale_fan_many_owners(m):
+    """one Computable reading one observable of each of m owners"""
+    init = [[i % 4] for i in range(m)]
+    comps = [{"owner": 0, "expr": _bsum([["o", i, 0] for i in range(m)])}, {"owner": m - 1, "expr": ["+", ["k", 0], ["o", m - 1, 0]]}]
+    ops = [["read", 1], ["set", m - 1, 0, 50], ["read", 1], ["set", m // 2, 0, 60], ["read", 0], ["read", 1], ["set", 0, 0, 0], ["read", 1],
+           ["set", 1, 0, 70], ["set", 1, 0, 1], ["read", 1]]
+    return {"scale": True, "init": init, "comps": comps, "ops": ops, "layout": "shared"}
+
+
+def _scale_chain(n, top_down):
+    """a chain n deep; top_down: after a write the LAST link is read first (the comparison recurses through the
+    whole chain, several Python frames per link - sizes stay below what HEAD manages under the default recursion limit);
+    otherwise the links are read bottom-up (only the dirty cascade recurses, three frames per link)"""
+    init = [[1, 2]]
+    comps = [{"owner": 0, "expr": ["o", 0, 0]}] + [{"owner": 0, "expr": ["+", ["k", j - 1], ["o", 0, j % 2]]} for j in range(1, n)]
+    up = [["read", j] for j in range(n)]
+    if top_down:
+        ops = [["read", n - 1], ["set", 0, 0, 3], ["read", n - 1], ["set", 0, 1, 2], ["read", n - 1], ["set", 0, 1, 5], ["read", n // 2], ["read", n - 1]]
+    else:
+        ops = [["set", 0, 0, 3]] + up + [["set", 0, 1, 4]] + up + [["set", 0, 1, 4]] + up[::7] + [["read", n - 1]]
+    return {"scale": True, "init": init, "comps": comps, "ops": ops, "layout": "own"}
+
+
+def _scale_rounds(r):
+    """thousands of write/read rounds on a small graph: every evaluation subscribes again"""
+    comps = [{"owner": 0, "expr": ["+", ["o", 0, 0], ["o", 1, 0]]}, {"owner": 1, "expr": ["if", ["o", 0, 1], ["k", 0], ["o", 1, 0]]},
+             {"owner": 1, "expr": ["+", ["k", 1], ["k", 0]]}]
+    ops = []
+    for i in range(r):
+        ops += [["set", 0, 0, i % 5], ["read", 2]]
+        if i % 3 == 0:
+            ops += [["set", 0, 1, (i // 3) % 2], ["read", 1]]
+        if i % 50 == 0:
+            ops += [["set", 1, 0, i % 4], ["read", 2], ["read", 0]]
+    return {"scale": True, "init": [[0, 1], [2]], "comps": comps, "ops": ops, "layout": "shared"}
+
+
+def _is_big(case):
+    """scale cases beyond these sizes are run on the implementation and judged by the oracle only"""
+    return bool(case.get("scale")) and (len(case["comps"]) > 64 or sum(len(v) for v in case["init"]) > 130 or len(case["ops"]) > 400)
+
+
+def _scale_cases(tier, broken=False):
+    cs = [_scale_star(40), _scale_chain(40, True), _scale_fan_one_owner(40)]          # model-compared sizes
+    cs += [_scale_star(257), _scale_star(300, "deep"), _scale_fan_one_owner(300), _scale_fan_many_owners(260),
+           _scale_chain(90, True), _scale_chain(250, False), _scale_rounds(700)]
+    if tier == "thorough" or broken:
+        cs += [_scale_star(n) for n in (255, 256, 513, 1025)]
+        cs += [_scale_fan_one_owner(n) for n in (256, 257, 1025)] + [_scale_fan_many_owners(n) for n in (257, 1025)]
+        cs += [_scale_chain(129, True), _scale_chain(280, False), _scale_rounds(3000)]
+    return cs
+
+
 def _extreme_cases():
     """extreme but legal shapes: a chain of 14 Computables, a Computable without any read, one reading every
     observable of three owners, an empty history tail, the same read repeated"""
@@ -312,7 +399,7 @@ def _corner_cases():
 
 
 def gen_cases(rng, tier):
-    cases = _corner_cases() + _extreme_cases()
+    cases = _corner_cases() + _extreme_cases() + _scale_cases(tier)
     n = 600 if tier == "quick" else 12000
     for _ in range(n):
         cases.append(_rand_case(rng, rng.randint(4, 30)))
@@ -336,6 +423,8 @@ def enumerate_cases(tier, broken=False):
     """all op sequences of length <= 4 (5 thorough) over {set x 0|1, set y 0|1, read c0, read c1} on six
     two-observable, two-computed shapes (chain, branch flip, constant branch, cross-owner, ...)"""
     ln = 5 if tier == "thorough" else 4
+    if broken:
+        yield from _scale_cases("thorough", broken=True)
     for ti, (init, comps0) in enumerate(_TEMPLATES + _TEMPLATES):
         # second pass: the functions return None where the model value is 0
         comps = [dict(c, none0=(ti >= len(_TEMPLATES))) for c in comps0]
@@ -373,7 +462,34 @@ _FROZEN = []
 
 
 def _pure(env, e, j):
-    """direct evaluation of a DSL term on the shadow store: what the function returns if evaluated right now"""
+    """direct evaluation of a DSL term on the shadow store: what the function returns if evaluated right now.
+    The values of the Computables below are computed bottom-up (iteratively, memoised for the duration of one
+    top-level call) so that chains hundreds deep do not recurse."""
+    if getattr(env, "_memo", None) is not None:
+        return _pure1(env, e, j)
+    env._memo = {}
+    try:
+        return _pure1(env, e, j)
+    finally:
+        env._memo = None
+
+
+def _den(env, k):
+    memo = env._memo
+    if k not in memo:
+        for i in range(k + 1):
+            if i not in memo:
+                try:
+                    memo[i] = (True, _pure1(env, env.exprs[i], i))
+                except _Required as ex:
+                    memo[i] = (False, ex)
+    ok, v = memo[k]
+    if not ok:
+        raise v
+    return v
+
+
+def _pure1(env, e, j):
     t = e[0]
     if t == "c":
         return _dec(e[1]) if env.het else e[1]
@@ -382,16 +498,16 @@ def _pure(env, e, j):
     if t == "k":
         k = e[1]
         if k < j and env.cowner[k] in env.alive:
-            return _pure(env, env.exprs[k], k)
+            return _den(env, k)
         return 0
     if t == "+":
-        a = _pure(env, e[1], j)
-        b = _pure(env, e[2], j)
+        a = _pure1(env, e[1], j)
+        b = _pure1(env, e[2], j)
         return (a, b) if env.het else a + b
     if t == "if":
-        return _pure(env, e[2], j) if _pure(env, e[1], j) else _pure(env, e[3], j)
+        return _pure1(env, e[2], j) if _pure1(env, e[1], j) else _pure1(env, e[3], j)
     if t == "req":
-        v = _pure(env, e[1], j)
+        v = _pure1(env, e[1], j)
         if not v:
             raise _Required()
         return v
@@ -536,7 +652,7 @@ def _mk_func(env, j, expr):
 
 
 def _state_obs(env):
-    if env.het:
+    if env.het or env.big:
         return []
     out = list(env.cnt)
     for o in sorted(env.alive):
@@ -561,6 +677,7 @@ def run_impl(case):
     env.failures = []
     env.opi = -1
     env.het = bool(case.get("het"))
+    env.big = _is_big(case)
     env.z = (lambda v: v) if env.het else _z
     env.exc_seen = False
     env.falsy = list(case.get("falsy", [])) if env.het else []
@@ -694,7 +811,7 @@ def run_impl(case):
                     _fail(env, "C17/Observable/value-differs-from-assignment", f"x{n} of owner {o} holds {getattr(env.owners[o], f'x{n}')}, last assigned {env.shadow[(o, n)]}")
                     env.shadow[(o, n)] = getattr(env.owners[o], f"x{n}")
     gc.enable()
-    if env.het:
+    if env.het or env.big:
         return {"obs": obs, "failures": env.failures, "model": False}
     return {"obs": obs, "failures": env.failures}
 
@@ -832,7 +949,7 @@ def _act(a):
 
 
 def coq_case(case):
-    if case.get("het"):
+    if case.get("het") or _is_big(case):
         # oracle-only history (values the Z-valued model cannot represent): never sent to the model; a replay file of
         # such a history asks for model observations all the same - give it the empty case
         return "{| c_init := []; c_comps := []; c_ops := [] |}"
